@@ -127,7 +127,8 @@ class Resolver:
                             if a is None:
                                 raise ValueError("default of %s.%s not expressible as an atom" % (d["name"], fl["name"]))
                             de = {"a": a}
-                        fields.append({"id": fid, "req": req, "name": fl["name"], "type": st, "def": de})
+                        fields.append({"id": fid, "req": req, "name": fl["name"], "type": st, "def": de,
+                                       "w": int(fl.get("w", 0))})
                     if d["name"] in structs:
                         raise ValueError("duplicate struct name %s in program" % d["name"])
                     structs[d["name"]] = {"kind": d["k"], "fields": fields}
